@@ -140,7 +140,15 @@ impl<'a> RecordBuilder<'a> {
         }
     }
 
+    pub fn column_count(&self) -> usize {
+        self.schema.column_count()
+    }
+
     pub fn set_null(&mut self, col_idx: usize) {
+        // a column the schema does not have has no null bit
+        if col_idx >= self.schema.column_count() {
+            return;
+        }
         let byte_idx = col_idx / 8;
         let bit_idx = col_idx % 8;
         self.null_bitmap[byte_idx] |= 1 << bit_idx;
@@ -153,33 +161,54 @@ impl<'a> RecordBuilder<'a> {
         self.null_bitmap[byte_idx] &= !(1 << bit_idx);
     }
 
-    fn set_fixed_bytes(&mut self, col_idx: usize, bytes: &[u8]) {
+    /// Offset of column `col_idx` in the fixed data, if that column exists and stores
+    /// exactly `len` bytes there. A value of any other width would overwrite its neighbours.
+    fn fixed_slot(&self, col_idx: usize, len: usize) -> Result<usize> {
+        let col = self.schema.column(col_idx).ok_or_else(|| {
+            eyre::eyre!(
+                "column {} not found: the record has {} columns",
+                col_idx,
+                self.schema.column_count()
+            )
+        })?;
+        eyre::ensure!(
+            col.data_type.fixed_size() == Some(len),
+            "a {}-byte fixed-width value cannot be stored in column {} of type {:?}",
+            len,
+            col_idx,
+            col.data_type
+        );
+        Ok(self.schema.fixed_offset(col_idx))
+    }
+
+    fn set_fixed_bytes(&mut self, col_idx: usize, bytes: &[u8]) -> Result<()> {
+        let offset = self.fixed_slot(col_idx, bytes.len())?;
         self.clear_null(col_idx);
-        let offset = self.schema.fixed_offset(col_idx);
         self.fixed_data[offset..offset + bytes.len()].copy_from_slice(bytes);
         self.column_values[col_idx] = ColumnValue::Fixed {
             offset,
             len: bytes.len(),
         };
+        Ok(())
     }
 
     pub fn set_bool(&mut self, col_idx: usize, value: bool) -> Result<()> {
-        self.set_fixed_bytes(col_idx, &[if value { 1 } else { 0 }]);
+        self.set_fixed_bytes(col_idx, &[if value { 1 } else { 0 }])?;
         Ok(())
     }
 
     pub fn set_int2(&mut self, col_idx: usize, value: i16) -> Result<()> {
-        self.set_fixed_bytes(col_idx, &value.to_le_bytes());
+        self.set_fixed_bytes(col_idx, &value.to_le_bytes())?;
         Ok(())
     }
 
     pub fn set_int4(&mut self, col_idx: usize, value: i32) -> Result<()> {
-        self.set_fixed_bytes(col_idx, &value.to_le_bytes());
+        self.set_fixed_bytes(col_idx, &value.to_le_bytes())?;
         Ok(())
     }
 
     pub fn set_int8(&mut self, col_idx: usize, value: i64) -> Result<()> {
-        self.set_fixed_bytes(col_idx, &value.to_le_bytes());
+        self.set_fixed_bytes(col_idx, &value.to_le_bytes())?;
         Ok(())
     }
 
@@ -199,6 +228,14 @@ impl<'a> RecordBuilder<'a> {
             // an integer value for a floating-point column is that number, not its bit pattern
             DataType::Float8 => self.set_float8(col_idx, value as f64),
             DataType::Float4 => self.set_float4(col_idx, value as f32),
+            // an integer for a DATE is its day number, for a TIMESTAMPTZ its UTC microseconds
+            DataType::Date => {
+                let days = i32::try_from(value).map_err(|_| {
+                    eyre::eyre!("day number {} is out of range for DATE column {}", value, col_idx)
+                })?;
+                self.set_date(col_idx, days)
+            }
+            DataType::TimestampTz => self.set_timestamptz(col_idx, value, 0),
             _ => self.set_int8(col_idx, value),
         }
     }
@@ -215,48 +252,54 @@ impl<'a> RecordBuilder<'a> {
 
         match col_type {
             DataType::Float4 => self.set_float4(col_idx, value as f32),
-            _ => self.set_float8(col_idx, value),
+            DataType::Float8 => self.set_float8(col_idx, value),
+            // the bit pattern of a float in a BIGINT or TIMESTAMP column is not that number
+            other => eyre::bail!(
+                "a floating-point value cannot be stored in column {} of type {:?}",
+                col_idx,
+                other
+            ),
         }
     }
 
     pub fn set_float4(&mut self, col_idx: usize, value: f32) -> Result<()> {
-        self.set_fixed_bytes(col_idx, &value.to_le_bytes());
+        self.set_fixed_bytes(col_idx, &value.to_le_bytes())?;
         Ok(())
     }
 
     pub fn set_float8(&mut self, col_idx: usize, value: f64) -> Result<()> {
-        self.set_fixed_bytes(col_idx, &value.to_le_bytes());
+        self.set_fixed_bytes(col_idx, &value.to_le_bytes())?;
         Ok(())
     }
 
     pub fn set_date(&mut self, col_idx: usize, days: i32) -> Result<()> {
-        self.set_fixed_bytes(col_idx, &days.to_le_bytes());
+        self.set_fixed_bytes(col_idx, &days.to_le_bytes())?;
         Ok(())
     }
 
     pub fn set_time(&mut self, col_idx: usize, micros: i64) -> Result<()> {
-        self.set_fixed_bytes(col_idx, &micros.to_le_bytes());
+        self.set_fixed_bytes(col_idx, &micros.to_le_bytes())?;
         Ok(())
     }
 
     pub fn set_timestamp(&mut self, col_idx: usize, micros: i64) -> Result<()> {
-        self.set_fixed_bytes(col_idx, &micros.to_le_bytes());
+        self.set_fixed_bytes(col_idx, &micros.to_le_bytes())?;
         Ok(())
     }
 
     pub fn set_uuid(&mut self, col_idx: usize, uuid: &[u8; 16]) -> Result<()> {
-        self.set_fixed_bytes(col_idx, uuid);
+        self.set_fixed_bytes(col_idx, uuid)?;
         Ok(())
     }
 
     pub fn set_macaddr(&mut self, col_idx: usize, mac: &[u8; 6]) -> Result<()> {
-        self.set_fixed_bytes(col_idx, mac);
+        self.set_fixed_bytes(col_idx, mac)?;
         Ok(())
     }
 
     pub fn set_timestamptz(&mut self, col_idx: usize, micros: i64, offset_secs: i32) -> Result<()> {
+        let offset = self.fixed_slot(col_idx, 12)?;
         self.clear_null(col_idx);
-        let offset = self.schema.fixed_offset(col_idx);
         self.fixed_data[offset..offset + 8].copy_from_slice(&micros.to_le_bytes());
         self.fixed_data[offset + 8..offset + 12].copy_from_slice(&offset_secs.to_le_bytes());
         self.column_values[col_idx] = ColumnValue::Fixed { offset, len: 12 };
@@ -264,21 +307,21 @@ impl<'a> RecordBuilder<'a> {
     }
 
     pub fn set_inet4(&mut self, col_idx: usize, ip: &[u8; 4]) -> Result<()> {
-        self.set_fixed_bytes(col_idx, ip);
+        self.set_fixed_bytes(col_idx, ip)?;
         Ok(())
     }
 
     pub fn set_inet6(&mut self, col_idx: usize, ip: &[u8; 16]) -> Result<()> {
-        self.set_fixed_bytes(col_idx, ip);
+        self.set_fixed_bytes(col_idx, ip)?;
         Ok(())
     }
 
     pub fn set_vector(&mut self, col_idx: usize, vec: &[f32]) -> Result<()> {
-        self.clear_null(col_idx);
         let var_idx = self
             .schema
             .var_column_index(col_idx)
             .ok_or_else(|| eyre::eyre!("column {} is not a variable column", col_idx))?;
+        self.clear_null(col_idx);
         let mut bytes = Vec::with_capacity(4 + vec.len() * 4);
         bytes.extend((vec.len() as u32).to_le_bytes());
         for &f in vec {
@@ -294,11 +337,11 @@ impl<'a> RecordBuilder<'a> {
     }
 
     pub fn set_blob(&mut self, col_idx: usize, data: &[u8]) -> Result<()> {
-        self.clear_null(col_idx);
         let var_idx = self
             .schema
             .var_column_index(col_idx)
             .ok_or_else(|| eyre::eyre!("column {} is not a variable column", col_idx))?;
+        self.clear_null(col_idx);
         let var = &mut self.var_data[var_idx];
         var.clear();
         var.extend_from_slice(data);
@@ -360,22 +403,22 @@ impl<'a> RecordBuilder<'a> {
     }
 
     pub fn set_jsonb(&mut self, col_idx: usize, jsonb: &JsonbBuilder) -> Result<()> {
-        self.clear_null(col_idx);
         let var_idx = self
             .schema
             .var_column_index(col_idx)
             .ok_or_else(|| eyre::eyre!("column {} is not a variable column", col_idx))?;
+        self.clear_null(col_idx);
         self.var_data[var_idx] = jsonb.build();
         self.column_values[col_idx] = ColumnValue::Variable { idx: var_idx };
         Ok(())
     }
 
     pub fn set_jsonb_bytes(&mut self, col_idx: usize, data: &[u8]) -> Result<()> {
-        self.clear_null(col_idx);
         let var_idx = self
             .schema
             .var_column_index(col_idx)
             .ok_or_else(|| eyre::eyre!("column {} is not a variable column", col_idx))?;
+        self.clear_null(col_idx);
         let var = &mut self.var_data[var_idx];
         var.clear();
         var.extend_from_slice(data);
@@ -390,8 +433,8 @@ impl<'a> RecordBuilder<'a> {
         days: i32,
         months: i32,
     ) -> Result<()> {
+        let offset = self.fixed_slot(col_idx, 16)?;
         self.clear_null(col_idx);
-        let offset = self.schema.fixed_offset(col_idx);
         self.fixed_data[offset..offset + 8].copy_from_slice(&micros.to_le_bytes());
         self.fixed_data[offset + 8..offset + 12].copy_from_slice(&days.to_le_bytes());
         self.fixed_data[offset + 12..offset + 16].copy_from_slice(&months.to_le_bytes());
@@ -400,8 +443,8 @@ impl<'a> RecordBuilder<'a> {
     }
 
     pub fn set_enum(&mut self, col_idx: usize, type_id: u16, ordinal: u16) -> Result<()> {
+        let offset = self.fixed_slot(col_idx, 4)?;
         self.clear_null(col_idx);
-        let offset = self.schema.fixed_offset(col_idx);
         self.fixed_data[offset..offset + 2].copy_from_slice(&type_id.to_le_bytes());
         self.fixed_data[offset + 2..offset + 4].copy_from_slice(&ordinal.to_le_bytes());
         self.column_values[col_idx] = ColumnValue::Fixed { offset, len: 4 };
@@ -409,8 +452,8 @@ impl<'a> RecordBuilder<'a> {
     }
 
     pub fn set_point(&mut self, col_idx: usize, x: f64, y: f64) -> Result<()> {
+        let offset = self.fixed_slot(col_idx, 16)?;
         self.clear_null(col_idx);
-        let offset = self.schema.fixed_offset(col_idx);
         self.fixed_data[offset..offset + 8].copy_from_slice(&x.to_le_bytes());
         self.fixed_data[offset + 8..offset + 16].copy_from_slice(&y.to_le_bytes());
         self.column_values[col_idx] = ColumnValue::Fixed { offset, len: 16 };
@@ -418,8 +461,8 @@ impl<'a> RecordBuilder<'a> {
     }
 
     pub fn set_box(&mut self, col_idx: usize, low: (f64, f64), high: (f64, f64)) -> Result<()> {
+        let offset = self.fixed_slot(col_idx, 32)?;
         self.clear_null(col_idx);
-        let offset = self.schema.fixed_offset(col_idx);
         self.fixed_data[offset..offset + 8].copy_from_slice(&low.0.to_le_bytes());
         self.fixed_data[offset + 8..offset + 16].copy_from_slice(&low.1.to_le_bytes());
         self.fixed_data[offset + 16..offset + 24].copy_from_slice(&high.0.to_le_bytes());
@@ -429,8 +472,8 @@ impl<'a> RecordBuilder<'a> {
     }
 
     pub fn set_circle(&mut self, col_idx: usize, center: (f64, f64), radius: f64) -> Result<()> {
+        let offset = self.fixed_slot(col_idx, 24)?;
         self.clear_null(col_idx);
-        let offset = self.schema.fixed_offset(col_idx);
         self.fixed_data[offset..offset + 8].copy_from_slice(&center.0.to_le_bytes());
         self.fixed_data[offset + 8..offset + 16].copy_from_slice(&center.1.to_le_bytes());
         self.fixed_data[offset + 16..offset + 24].copy_from_slice(&radius.to_le_bytes());
@@ -446,8 +489,8 @@ impl<'a> RecordBuilder<'a> {
         lower_inclusive: bool,
         upper_inclusive: bool,
     ) -> Result<()> {
+        let offset = self.fixed_slot(col_idx, 9)?;
         self.clear_null(col_idx);
-        let offset = self.schema.fixed_offset(col_idx);
 
         let mut flags: u8 = 0;
         if lower_inclusive {
@@ -471,8 +514,8 @@ impl<'a> RecordBuilder<'a> {
     }
 
     pub fn set_int4_range_empty(&mut self, col_idx: usize) -> Result<()> {
+        let offset = self.fixed_slot(col_idx, 9)?;
         self.clear_null(col_idx);
-        let offset = self.schema.fixed_offset(col_idx);
         self.fixed_data[offset] = range_flags::EMPTY;
         self.fixed_data[offset + 1..offset + 9].fill(0);
         self.column_values[col_idx] = ColumnValue::Fixed { offset, len: 9 };
@@ -487,8 +530,8 @@ impl<'a> RecordBuilder<'a> {
         lower_inclusive: bool,
         upper_inclusive: bool,
     ) -> Result<()> {
+        let offset = self.fixed_slot(col_idx, 17)?;
         self.clear_null(col_idx);
-        let offset = self.schema.fixed_offset(col_idx);
 
         let mut flags: u8 = 0;
         if lower_inclusive {
@@ -512,8 +555,8 @@ impl<'a> RecordBuilder<'a> {
     }
 
     pub fn set_int8_range_empty(&mut self, col_idx: usize) -> Result<()> {
+        let offset = self.fixed_slot(col_idx, 17)?;
         self.clear_null(col_idx);
-        let offset = self.schema.fixed_offset(col_idx);
         self.fixed_data[offset] = range_flags::EMPTY;
         self.fixed_data[offset + 1..offset + 17].fill(0);
         self.column_values[col_idx] = ColumnValue::Fixed { offset, len: 17 };
@@ -557,11 +600,11 @@ impl<'a> RecordBuilder<'a> {
         scale: i16,
         is_negative: bool,
     ) -> Result<()> {
-        self.clear_null(col_idx);
         let var_idx = self
             .schema
             .var_column_index(col_idx)
             .ok_or_else(|| eyre::eyre!("column {} is not a variable column", col_idx))?;
+        self.clear_null(col_idx);
 
         let mut bytes = Vec::with_capacity(19);
         bytes.push(if is_negative { 0x80 } else { 0x00 });
@@ -574,11 +617,11 @@ impl<'a> RecordBuilder<'a> {
     }
 
     pub fn set_composite(&mut self, col_idx: usize, data: &[u8]) -> Result<()> {
-        self.clear_null(col_idx);
         let var_idx = self
             .schema
             .var_column_index(col_idx)
             .ok_or_else(|| eyre::eyre!("column {} is not a variable column", col_idx))?;
+        self.clear_null(col_idx);
         let var = &mut self.var_data[var_idx];
         var.clear();
         var.extend_from_slice(data);
@@ -587,11 +630,11 @@ impl<'a> RecordBuilder<'a> {
     }
 
     pub fn set_array(&mut self, col_idx: usize, data: &[u8]) -> Result<()> {
-        self.clear_null(col_idx);
         let var_idx = self
             .schema
             .var_column_index(col_idx)
             .ok_or_else(|| eyre::eyre!("column {} is not a variable column", col_idx))?;
+        self.clear_null(col_idx);
         let var = &mut self.var_data[var_idx];
         var.clear();
         var.extend_from_slice(data);
